@@ -4,7 +4,7 @@ SPEC = {
     "lean_modules": ["PallasVerif.Props.C42"],
     "required_theorems": ["read_all", "tip_is_last", "binary_search_picks_containing_chunk", "binary_search_total",
                           "read_from_point_eq", "from_existing_point", "from_fuzzy_slot", "absent_exact_fails",
-                          "fuzzy_before_first_fails", "fuzzy_full_fails_at_witness", "read_from_point_total", "getTip_ne_panic"],
+                          "fuzzy_before_first_fails", "fuzzy_full_fails_at_witness", "read_from_point_total", "getTip_ne_panic", "from_origin"],
     "streams": [{"name": "immdb", "quick": 150, "thorough": 8000, "timeout": 3000}],
     "rule": "databases: verbatim copies of the test_data chunk files (quick: all three; thorough: every contiguous subset of >= 2 "
             "files) and re-chunked layouts of 2..36 real blocks (runs or strided samples of the 1777+ blocks of test_data) cut "
@@ -22,7 +22,8 @@ SPEC = {
         "read_blocks, read_blocks_from_point (Point::Specific arm), get_tip; tie = stream `immdb` (digest count/fold/first/last "
         "of every block sequence read, error classes, the two helpers via guarded hooks)",
         "outside the model: directory listing, file I/O, the chunk/primary/secondary readers (modelled separately for C43), "
-        "MultiEraBlock::decode (a block is its (slot, hash)); Point::Origin arm is not modelled",
+        "MultiEraBlock::decode (a block is its (slot, hash)); the Point::Origin arm is modelled with the genesis test as a predicate "
+        "(theorem from_origin); no block of test_data is a genesis block, so the stream only exercises its OriginMissing and empty arms",
     ],
     "assumptions": [
         "Intact: immutable chunks non-empty, slots strictly increasing along the chain (the pinned suite asserts the same of the "
